@@ -98,12 +98,13 @@ type histOut struct {
 
 func traceProjection(tr *Trace) []string {
 	lines := []string{"H 0"}
-	var ups []string
-	for _, u := range tr.InitUp {
-		ups = append(ups, fmt.Sprintf("%d:%d", u[0], u[1]))
+	ups := append([][2]int64(nil), tr.InitUp...)
+	sort.Slice(ups, func(a, b int) bool { return ups[a][0] < ups[b][0] })
+	u := "INITUPD"
+	for _, x := range ups {
+		u += fmt.Sprintf(" %d %d", x[0], x[1])
 	}
-	sort.Strings(ups)
-	lines = append(lines, "INITUPD "+strings.Join(ups, " "))
+	lines = append(lines, u)
 	lines = append(lines, tr.Init.Lines()...)
 	for _, bt := range tr.Blocks {
 		lines = append(lines, bt.ProjectionLines()...)
@@ -118,6 +119,7 @@ func cmdL1(args []string) error {
 	outDir := "."
 	histFile := ""
 	only := ""
+	restarts, twin := false, false
 	for i := 0; i+1 < len(args); i += 2 {
 		switch args[i] {
 		case "-seed":
@@ -132,6 +134,10 @@ func cmdL1(args []string) error {
 			histFile = args[i+1]
 		case "-only":
 			only = args[i+1]
+		case "-restarts":
+			restarts = args[i+1] == "1"
+		case "-twin":
+			twin = args[i+1] == "1"
 		}
 	}
 	keys := newKeys()
@@ -147,8 +153,17 @@ func cmdL1(args []string) error {
 			return err
 		}
 		var h History
-		if err := json.Unmarshal(data, &h); err != nil {
-			// a replay file: {"history": ...}
+		var wrap struct {
+			Minimal struct {
+				History *History `json:"history"`
+			} `json:"minimal"`
+			History *History `json:"history"`
+		}
+		if err := json.Unmarshal(data, &wrap); err == nil && wrap.Minimal.History != nil {
+			h = *wrap.Minimal.History // a replay file written by check.py
+		} else if err == nil && wrap.History != nil {
+			h = *wrap.History
+		} else if err := json.Unmarshal(data, &h); err != nil {
 			return err
 		}
 		items = append(items, item{filepath.Base(histFile), h})
@@ -191,9 +206,17 @@ func cmdL1(args []string) error {
 			eff.Blocks = append(eff.Blocks, bt.Spec)
 		}
 		it.h = eff
-		fs := dedupe(Monitors(it.h, tr))
+		fs := Monitors(it.h, tr)
+		rr := rand.New(rand.NewSource(seed*7919 + int64(i)))
+		if restarts {
+			fs = append(fs, restartMonitor(keys, it.h, tr, rr)...)
+		}
+		if twin {
+			fs = append(fs, twinMonitor(keys, it.h, tr, rr)...)
+		}
+		fs = dedupe(fs)
 		sxLines = append(sxLines, it.h.Sx())
-		projLines = append(projLines, fmt.Sprintf("== %d %s", i, it.name))
+		projLines = append(projLines, fmt.Sprintf("== %d", i))
 		projLines = append(projLines, traceProjection(tr)...)
 		enc.Encode(histOut{Name: it.name, History: it.h, Failures: fs, Blocks: len(tr.Blocks), Tags: historyTags(it.h, tr)})
 	}
